@@ -86,4 +86,33 @@ def topleftPad {α : Type} (a : Arr α) (shape : List Nat) (pad : α) : Arr α :
 def crop {α : Type} (a : Arr α) (starts exts : List Nat) (d : α) : Arr α :=
   Arr.ofFn exts (fun idx => a.getD (List.zipWith (· + ·) starts idx) d)
 
+/-- n-D box `[lo, hi)` per axis that `centered` / `_center_slice` cut out of an array of shape `cur` -/
+def centeredBox (cur new : List Nat) : List (Nat × Nat) :=
+  List.zipWith (fun c n => pySlice c (centerStart c n) (centerStop c n)) cur new
+
+/-- n-D box of `extract_center` (truncating division) -/
+def extractBox (cur new : List Nat) : List (Nat × Nat) :=
+  List.zipWith (fun c n => pySlice c (extractStart c n) (extractStop c n)) cur new
+
+/-- index inside a box `[lo, hi)` per axis -/
+def inBox : List (Nat × Nat) → List Nat → Bool
+  | [], [] => true
+  | (lo, hi) :: bs, i :: is => decide (lo ≤ i) && decide (i < hi) && inBox bs is
+  | _, _ => false
+
+/-- `centered_mask`: the array keeps its shape, values inside the centre box are kept, the rest is zero -/
+def centeredMask (a : Arr Int) (new : List Nat) : Arr Int :=
+  Arr.ofFn a.shape (fun idx => if inBox (centeredBox a.shape new) idx then a.getD idx 0 else 0)
+
+/-- `apply_convolution_mode(..., mask_output=True)`: the array is first cut to the convolution shape
+`conv` (leading corner), then the centre box of the mode is kept and the rest zeroed. -/
+def convMask (mode : Mode) (a : Arr Int) (conv s1 s2 : List Nat) : Option (Arr Int) :=
+  let c := crop a (conv.map fun _ => 0) (List.zipWith min conv a.shape) 0
+  match mode with
+  | .full => some c
+  | .same => some (centeredMask c s1)
+  | .valid =>
+      let v := List.zipWith validLen s1 s2
+      if v.any (· < 0) then none else some (centeredMask c (v.map Int.toNat))
+
 end Pm.C13
